@@ -148,6 +148,24 @@ const FILES: [&str; 8] = [
 ];
 const DIRPATHS: [&str; 5] = ["d1/d2/x", "sqpack/ex2/y", "d0/z", "movie/ex1/m", "q"];
 
+/// Paths with bytes beyond letters / digits / `._-` (raw here, escaped in the case line:
+/// `c03fs::escape_path`): blanks in front of the first component, behind the file name, inside;
+/// other white space; punctuation; control characters.  A small pool, so that commands meet files
+/// of the start tree and of earlier commands.  No entry is a directory of another one or of `FILES`.
+const ODD_FILES: [&str; 20] = [
+    " f0", "f0 ", "f 0", " ", "d0/ f1 ", " d/f0", "d /f0", "d0/d 1/f2", "sqpack/ffxiv/x .bin", "movie/ffxiv/ f3.bk2",
+    "sqpack/ex1/ex1.ver ", "a+b=c,(d)'!@#$%&[]", "d0/f\t", "f\n", "\rf", "d0/.f", "d~/^{f};:`", "f%20", "d0/f\\g*?\"<>|", "\x01/\x7f",
+];
+const ODD_DIRPATHS: [&str; 8] = ["d1/ d2/x ", " q", "q ", "d 1/d+2", "sqpack/ex2 /y", "m\t/n\n", "(a)/[b]/{c}", "%/%25"];
+
+fn rand_file(rng: &mut Rng) -> String {
+    if rng.chance(1, 8) { escape_path(*rng.pick(&ODD_FILES)) } else { rng.pick(&FILES).to_string() }
+}
+
+fn rand_dirpath(rng: &mut Rng) -> String {
+    if rng.chance(1, 5) { escape_path(*rng.pick(&ODD_DIRPATHS)) } else { rng.pick(&DIRPATHS).to_string() }
+}
+
 /// expansions whose `sqpack/<folder>` certainly exists at this point of the sequence (DeleteData does
 /// not create it: the generator aims at well-formed sequences)
 fn initial_dirs(tree: &str) -> Vec<u16> {
@@ -180,8 +198,15 @@ fn rand_znoise(rng: &mut Rng) -> String {
     };
     let level = *rng.pick(&[0, 0, 1, 6, 9]);
     let bits = if level == 0 { 8 } else { *rng.pick(&[8usize, 8, 7, 6, 5, 4, 3, 2, 1]) };
+    // small alphabets mean long contents (up to 8 x the stream): the fast level for those
+    let level = if bits <= 3 { level.min(1) } else { level };
     znoise(want, rng.below(1 << 16) as usize, bits, level)
 }
+
+/// one random AddFile block in `ZDEN` is a long deflated block (`rand_znoise`): set by `generate`
+/// (quick 64, thorough 400 — a long block costs ~60 KB of case text and a few deflate runs; the
+/// thorough tier has 60 times the sequences)
+static ZDEN: std::sync::atomic::AtomicU64 = std::sync::atomic::AtomicU64::new(64);
 
 fn rand_cmd(rng: &mut Rng, have: &mut Vec<u16>) -> String {
     let main = *rng.pick(&[0u16, 4, 4, 10, 19, 0x123, 0xffff]);
@@ -261,7 +286,7 @@ fn rand_cmd(rng: &mut Rng, have: &mut Vec<u16>) -> String {
                     3 => 16000,
                     _ => rng.range(100, 3000) as usize,
                 };
-                if rng.chance(1, 48) {
+                if rng.chance(1, ZDEN.load(std::sync::atomic::Ordering::Relaxed)) {
                     // a deflated block anywhere in the legal range of compressed lengths
                     bs.push(rand_znoise(rng));
                 } else if rng.chance(1, 2) {
@@ -279,17 +304,17 @@ fn rand_cmd(rng: &mut Rng, have: &mut Vec<u16>) -> String {
                 "FA:{}:{}:{}:{}",
                 offset,
                 rng.below(3),
-                rng.pick(&FILES),
+                rand_file(rng),
                 if bs.is_empty() { "-".to_string() } else { bs.join(";") }
             )
         }
-        17 => format!("FD:{}:{}", rng.below(3), rng.pick(&FILES)),
+        17 => format!("FD:{}:{}", rng.below(3), rand_file(rng)),
         18 => {
             let e = rng.below(3) as u16;
             have.retain(|x| *x != e);
-            format!("FR:{}:{}", e, rng.pick(&FILES))
+            format!("FR:{}:{}", e, rand_file(rng))
         }
-        _ => format!("FM:{}:{}", rng.below(3), rng.pick(&DIRPATHS)),
+        _ => format!("FM:{}:{}", rng.below(3), rand_dirpath(rng)),
     }
 }
 
@@ -307,6 +332,15 @@ fn rand_tree(rng: &mut Rng) -> String {
     for d in ["sqpack/ffxiv/", "sqpack/ex1/", "sqpack/ex12/", "d9/"] {
         if rng.chance(1, 3) {
             es.push(d.to_string());
+        }
+    }
+    // one tree in three: a few files with odd names
+    if rng.chance(1, 3) {
+        for f in ODD_FILES.iter() {
+            if rng.chance(1, 5) {
+                let n = *rng.pick(&[1usize, 20, 129, 1000]);
+                es.push(format!("{}:{}", escape_path(f), rand_content(rng, n)));
+            }
         }
     }
     if es.is_empty() { "-".into() } else { es.join(";") }
@@ -330,8 +364,11 @@ fn api_of(rng: &mut Rng, tree: &mut String) -> &'static str {
 
 pub fn generate(thorough: bool, seed: u64, out: &mut dyn Write) {
     let mut rng = Rng::new(seed, "C03");
+    ZDEN.store(if thorough { 400 } else { 64 }, std::sync::atomic::Ordering::Relaxed);
     let al = alphabet();
     let t0 = target(0);
+    // file operations on paths with blanks, punctuation, control characters
+    generate_odd(thorough, seed, out);
     // bounded-exhaustive: all sequences of length <= 2 on every start tree, length 3 (quick) on one
     // start tree each / (thorough) on every start tree; every sequence starts with a TargetInfo
     for (ti, tree) in TREES.iter().enumerate() {
@@ -346,6 +383,14 @@ pub fn generate(thorough: bool, seed: u64, out: &mut dyn Write) {
             }
         }
     }
+    // deflated blocks over the whole legal range of compressed lengths, long contents: these cases
+    // are long (tens of KB); the check cuts the case list into contiguous shards, so they are spread
+    // evenly over the length-3 sequences instead of sitting together in one shard
+    let mut heavy_buf: Vec<u8> = vec![];
+    generate_zrange(thorough, seed, &mut heavy_buf);
+    let heavy_txt = String::from_utf8(heavy_buf).unwrap();
+    let mut heavy = heavy_txt.lines();
+    let stride = (al.len() * al.len() * al.len()) / heavy_txt.lines().count().max(1) + 1;
     let mut k = 0usize;
     for a in al.iter() {
         for b in al.iter() {
@@ -356,8 +401,16 @@ pub fn generate(thorough: bool, seed: u64, out: &mut dyn Write) {
                         writeln!(out, "apply api=zipatch tree={} cmds={},{},{},{}", tree, t0, a, b, c).unwrap();
                     }
                 }
+                if k % stride == 0 {
+                    if let Some(l) = heavy.next() {
+                        writeln!(out, "{}", l).unwrap();
+                    }
+                }
             }
         }
+    }
+    for l in heavy {
+        writeln!(out, "{}", l).unwrap();
     }
     if thorough {
         // length 4 over a 16-command sub-alphabet (at least one representative per command kind)
@@ -410,10 +463,45 @@ pub fn generate(thorough: bool, seed: u64, out: &mut dyn Write) {
         }
         writeln!(out, "chain api={} tree={} {}", api, tree, ps.join(" ")).unwrap();
     }
-    // deflated blocks over the whole legal range of compressed lengths, long contents
-    generate_zrange(thorough, seed, out);
     // byte offsets of 2^32 and more (sparse files), last: they stay together in one shard
     generate_big(thorough, seed, out);
+}
+
+/// File operations whose paths contain bytes beyond letters / digits / `._-` — the quantifier is
+/// "ASCII relative paths".  Bounded-exhaustive: every sequence of length ≤ 2 over AddFile / DeleteFile /
+/// MakeDirTree / RemoveAll on every odd path of the pool, on the empty tree and on a tree that holds
+/// every odd file (quick: a third of the pairs, on one of the two trees each).
+fn generate_odd(thorough: bool, seed: u64, out: &mut dyn Write) {
+    let mut al: Vec<String> = vec![];
+    for (i, f) in ODD_FILES.iter().enumerate() {
+        let f = escape_path(f);
+        al.push(format!("FA:0:0:{}:r~{}.{}", f, 10 + i, i));
+        al.push(format!("FD:0:{}", f));
+        if i % 4 == 0 {
+            al.push(format!("FA:{}:0:{}:{};r~3.{}", 7 + i, f, zblock(200 + i, i), i));
+        }
+    }
+    for d in ODD_DIRPATHS.iter() {
+        al.push(format!("FM:0:{}", escape_path(d)));
+    }
+    al.push(format!("FR:0:{}", escape_path(ODD_FILES[0])));
+    let full: Vec<String> = ODD_FILES.iter().enumerate().map(|(i, f)| format!("{}:~{}.{}", escape_path(f), 30 + i, 50 + i)).collect();
+    let full = format!("{};sqpack/ffxiv/040000.win32.dat0:~300.20", full.join(";"));
+    let trees = ["-", full.as_str()];
+    let mut k = 0usize;
+    for a in al.iter() {
+        for tree in trees.iter() {
+            writeln!(out, "apply api=zipatch tree={} cmds={}", tree, a).unwrap();
+        }
+        for b in al.iter() {
+            k += 1;
+            for (ti, tree) in trees.iter().enumerate() {
+                if thorough || k % 6 == ti {
+                    writeln!(out, "apply api={} tree={} cmds={},{}", if k % 7 == 0 { "game" } else { "zipatch" }, tree, a, b).unwrap();
+                }
+            }
+        }
+    }
 }
 
 /// AddFile payloads the small patterns of the other families never produce: deflated blocks whose
@@ -458,8 +546,8 @@ fn generate_zrange(thorough: bool, seed: u64, out: &mut dyn Write) {
     let n = if thorough { 400 } else { 20 };
     for i in 0..n {
         let want = if i % 4 == 0 { rng.range(200, 16000) } else { rng.range(16000, ZMAX as u64) } as usize;
-        let level = [1, 9, 6][i % 3];
         let bits = [7usize, 6, 4, 8, 5, 2, 3, 1][i % 8];
+        let level = if bits <= 3 && !thorough { 1 } else { [1, 9, 6][i % 3] };
         let off = if i % 5 == 4 { rng.range(1, 3000) } else { 0 };
         let tree = if i % 3 == 0 { TREES[1] } else { "-" };
         emit(out, &mut k, tree, format!("FA:{}:{}:{}:{}", off, rng.below(3), rng.pick(&FILES), znoise(want, rng.below(1 << 16) as usize, bits, level)));
